@@ -6,7 +6,7 @@ CONTAINERS = ["[]", "(1, 2)", "{}", "['a', 'b']"]  # list / tuple / dict literal
 DOC_TYPES = ["int", "str", "float", "bool", "Optional[int]"]
 
 
-def gen_def(r, allow_kwonly=True, allow_kwargs=True, method=None, containers=False):
+def gen_def(r, allow_kwonly=True, allow_kwargs=True, method=None, containers=False, doc_defaults=False):
     """-> facts: dict(name, method, params=[{name, kind, ann, default}], kwargs, doc=[{name, prose, typ, default}], style, summary)"""
     n = r.randint(1, 4)
     names = r.sample(PNAMES, n)
@@ -46,6 +46,19 @@ def gen_def(r, allow_kwonly=True, allow_kwargs=True, method=None, containers=Fal
         for e in doc:  # a numpydoc entry always has a type after the colon
             if "typ" not in e and e["name"] != "kwargs":
                 e["typ"] = r.choice(DOC_TYPES)
+    if doc_defaults:
+        # a documented default ("Defaults to 0"), usually different from the signature's: documented information takes
+        # precedence - zero-like values included
+        ann_of = {p["name"]: p["ann"] for p in params}
+        for e in doc:
+            if e["name"] == "kwargs" or r.random() >= 0.3:
+                continue
+            t = e.get("typ") or ann_of.get(e["name"])
+            vals = [v for v in ANN.get(t, ["5", "0", "0.5", "True", "False", "'mnist'"]) if v not in ("None", "''")]
+            if t == "float":
+                vals = vals + ["0.0"]
+            if vals:
+                e["default"] = r.choice(vals)
     if method is None:
         method = r.random() < 0.4
     receiver = r.choice(["self", "self", "cls"]) if method else None
@@ -57,12 +70,16 @@ def gen_def(r, allow_kwonly=True, allow_kwargs=True, method=None, containers=Fal
     }  # fmt: skip
 
 
+def _prose(e):
+    return e["prose"] + (" Defaults to %s" % e["default"] if "default" in e else "")
+
+
 def docstring(f, indent):
     pad = " " * indent
     lines = [f["summary"], ""]
     if f["style"] == "rest":
         for e in f["doc"]:
-            lines.append(":param %s: %s" % (e["name"], e["prose"]))
+            lines.append(":param %s: %s" % (e["name"], _prose(e)))
             if "typ" in e:
                 lines.append(":type %s: ```%s```" % (e["name"], e["typ"]))
             lines.append("")
@@ -71,7 +88,7 @@ def docstring(f, indent):
             lines += ["Parameters", "----------"]
             for e in f["doc"]:
                 lines.append("%s : %s" % (e["name"], e.get("typ", "object")))
-                lines.append("    " + e["prose"])
+                lines.append("    " + _prose(e))
             lines.append("")
         if f.get("trailer"):
             lines += ["Raises", "------", "ValueError", "    when the input is bad", ""]
@@ -79,7 +96,7 @@ def docstring(f, indent):
         if f["doc"]:
             lines.append("Args:")
             for i, e in enumerate(f["doc"]):
-                prose = e["prose"]
+                prose = _prose(e)
                 if f.get("brace_opts") and i == 0 and e.get("typ") == "str":
                     prose = "{'cos', 'exp', 'step', 'linear'}"  # PyTorch-style option list
                 lines.append("  %s%s: %s" % (e["name"], " (%s)" % e["typ"] if "typ" in e else "", prose))
